@@ -60,7 +60,7 @@ META = dict(
              'result is no worse than the start): compiled / iterative third-party code, replaced by the contract',
              'the nlopt.RoundoffLimited fallback (returns nan parameters by design)',
              'log_opt / log wrappers with a missing (None) bound (log(-inf) = nan handed to the optimiser)',
-             'verbose output formatting, output_file handling, optimize_grid(full_output=True) theta bookkeeping',
+             'verbose output formatting, output_file handling, optimize_grid(full_output=True) theta bookkeeping (the returned parameters and fopt are checked with an empty evaluation grid)',
              'optimize_log_resid', 'a model with zero free parameters for the optimisers',
              'perturb_params with negative bounds or bounds closer than 1% (the multiplicative clamp leaves [lower, '
              'upper] there; see report)', 'float round-off (exp(log(x)) == x up to 1 ulp)'],
@@ -906,7 +906,7 @@ def make_scipy_body(wname, n, mask, multinom, bpat, fp, full_output, aslist):
     return body
 
 
-def make_grid_body(n, mask, multinom):
+def make_grid_body(n, mask, multinom, full=False):
     free = [i for i in range(n) if not mask[i]]
     nf = len(free)
 
@@ -930,13 +930,22 @@ def make_grid_body(n, mask, multinom):
                 x = [env.real('g%s%d' % (tag, j)) for j in range(nf)]
                 pts_l.append(x)
                 seen['v'] = f(_arr(env, x), *args)
-            return x[0] if nf == 1 else _arr(env, x)
+            best = x[0] if nf == 1 else _arr(env, x)
+            if full_output:
+                # (x0, fval, grid, Jout) with an EMPTY evaluation grid: the theta bookkeeping loop has nothing to do
+                return best, seen['v'], np.zeros((nf, 0)), np.zeros((0,))
+            return best
         so = _Over(real_so, brute=brute)
         sp = _Over(real_scipy, optimize=so)
         with patched((Inference, 'scipy', sp), (Inference, 'll', make_ll(env, rec, 'llp', data)),
-                     (Inference, 'll_multinom', make_ll(env, rec, 'llm', data))):
+                     (Inference, 'll_multinom', make_ll(env, rec, 'llm', data)),
+                     (Inference, 'optimal_sfs_scaling', lambda sfs_, d_: env.const(Fr(1)))):
             popt = Inference.optimize_grid(data, model, [40, 50], grid, multinom=multinom, fixed_params=fixed_params,
-                                           func_args=[3])
+                                           func_args=[3], full_output=full)
+        if full:
+            env.holds('full_output: 5 results', isinstance(popt, tuple) and len(popt) == 5)
+            env.eq('full_output: fopt handed on', popt[1], seen['v'])
+            popt = popt[0]
         env.holds('grid passed through', seen.get('ranges') is grid and seen.get('finish') is False)
         env.holds('evaluations', len(rec.calls) == 2)
         for k, c in enumerate(rec.calls):
@@ -1175,6 +1184,12 @@ def units(tier, seed):
                                                                  'multinom' if multinom else 'poisson'),
                              make_grid_body(n, mask, multinom), params=dict(n=n, mask=list(mask), multinom=multinom),
                              setup=_setup, min_obligations=6 + 3 * n, expect_paths=1, timeout_s=tmo))
+            if n >= 2 or not any(mask):
+                us.append(H.Unit('scipy-optimize_grid-n%d-%s-%s-full' % (n, mask_name(mask),
+                                                                          'multinom' if multinom else 'poisson'),
+                                 make_grid_body(n, mask, multinom, full=True),
+                                 params=dict(n=n, mask=list(mask), multinom=multinom, full_output=True),
+                                 setup=_setup, min_obligations=8 + 3 * n, expect_paths=1, timeout_s=tmo))
     # (E)
     cnt = 0
     for n in range(1, 5 if thorough else 4):
